@@ -45,11 +45,12 @@ theorem exec_z (s : SvgSt α) : svgExec add refl s 'z' [] =
 /-- what one printed command does to the interpreter -/
 theorem svg_cmd (heq : ∀ a b, eq a b = true → a = b) (s : SvgSt α) (c : Cmd α) (hargs : s.args = [])
     (hfirst : s.out ≠ [] ∨ ∃ x y, c = .move x y)
-    (hclose : ∀ x y, c = .close x y → (x, y) = s.start) :
+    (hclose : ∀ x y, c = .close x y → (x, y) = s.start)
+    (hz : wasClose s = true → ∃ x y, c = .move x y) :
     ∃ s', svgRun add refl s (svgCmd eq ge90 sub90 s.cur c) = some s' ∧ s'.args = [] ∧ s'.cur = c.endPt ∧
       s'.start = newStart s.start c ∧
       s'.out = (match svgCanon eq ge90 sub90 s.cur c with | none => s.out | some c' => c'.seg s.cur :: s.out) ∧
-      s'.out ≠ [] := by
+      s'.out ≠ [] ∧ (wasClose s' = true → ∃ x y, c = .close x y) := by
   have aM : svgArity 'M' = some 2 := by decide
   have aL : svgArity 'L' = some 2 := by decide
   have aH : svgArity 'H' = some 1 := by decide
@@ -59,14 +60,25 @@ theorem svg_cmd (heq : ∀ a b, eq a b = true → a = b) (s : SvgSt α) (c : Cmd
   have aA : svgArity 'A' = some 7 := by decide
   have az : svgArity 'z' = some 0 := by decide
   have uM : 'M'.toUpper = 'M' := by decide
+  have wL : ∀ t : SvgSt α, t.cmd = some 'L' → wasClose t = false := by intro t h; simp [wasClose, h]
+  have wH : ∀ t : SvgSt α, t.cmd = some 'H' → wasClose t = false := by intro t h; simp [wasClose, h]
+  have wV : ∀ t : SvgSt α, t.cmd = some 'V' → wasClose t = false := by intro t h; simp [wasClose, h]
+  have wQ : ∀ t : SvgSt α, t.cmd = some 'Q' → wasClose t = false := by intro t h; simp [wasClose, h]
+  have wC : ∀ t : SvgSt α, t.cmd = some 'C' → wasClose t = false := by intro t h; simp [wasClose, h]
+  have wA : ∀ t : SvgSt α, t.cmd = some 'A' → wasClose t = false := by intro t h; simp [wasClose, h]
   cases c with
   | move x y =>
-    simp [svgCmd, svgRun, svgTok, exec_M, hargs, aM, uM, Option.bind, Cmd.endPt, svgCanon, Cmd.seg, newStart]
+    simp [svgCmd, svgRun, svgTok, exec_M, hargs, aM, uM, Option.bind, Cmd.endPt, svgCanon, Cmd.seg, newStart, wasClose]
   | line x y =>
     have ho : s.out ≠ [] := by
       rcases hfirst with h | ⟨_, _, h⟩
       · exact h
       · cases h
+    have hw : wasClose s = false := by
+      cases hws : wasClose s with
+      | false => rfl
+      | true => obtain ⟨_, _, h⟩ := hz hws; cases h
+    have hw' : ¬(s.cmd = some 'z' ∨ s.cmd = some 'Z') := by simpa [wasClose] using hw
     by_cases h1 : eq x s.cur.1 = true
     · have hx := heq _ _ h1
       subst hx
@@ -74,48 +86,65 @@ theorem svg_cmd (heq : ∀ a b, eq a b = true → a = b) (s : SvgSt α) (c : Cmd
       · -- zero-length line: nothing printed
         have hy := heq _ _ h2
         subst hy
-        exact ⟨s, by simp [svgCmd, h1, h2, svgRun], hargs, by simp [Cmd.endPt], rfl, by simp [svgCanon, h1, h2], ho⟩
+        exact ⟨s, by simp [svgCmd, h1, h2, svgRun], hargs, by simp [Cmd.endPt], rfl, by simp [svgCanon, h1, h2], ho,
+          by simp [hw]⟩
       · -- V
-        simp [svgCmd, h1, h2, svgRun, svgTok, exec_V, hargs, ho, aV, Option.bind, Cmd.endPt, svgCanon, Cmd.seg, newStart]
+        simp [svgCmd, h1, h2, svgRun, svgTok, exec_V, hargs, ho, hw', aV, Option.bind, Cmd.endPt, svgCanon, Cmd.seg, newStart, wasClose]
     · by_cases h2 : eq y s.cur.2 = true
       · -- H
         have hy := heq _ _ h2
         subst hy
-        simp [svgCmd, h1, h2, svgRun, svgTok, exec_H, hargs, ho, aH, Option.bind, Cmd.endPt, svgCanon, Cmd.seg, newStart]
-      · simp [svgCmd, h1, h2, svgRun, svgTok, exec_L, hargs, ho, aL, Option.bind, Cmd.endPt, svgCanon, Cmd.seg, newStart]
+        simp [svgCmd, h1, h2, svgRun, svgTok, exec_H, hargs, ho, hw', aH, Option.bind, Cmd.endPt, svgCanon, Cmd.seg, newStart, wasClose]
+      · simp [svgCmd, h1, h2, svgRun, svgTok, exec_L, hargs, ho, hw', aL, Option.bind, Cmd.endPt, svgCanon, Cmd.seg, newStart, wasClose]
   | quad a b x y =>
     have ho : s.out ≠ [] := by
       rcases hfirst with h | ⟨_, _, h⟩
       · exact h
       · cases h
-    simp [svgCmd, svgRun, svgTok, exec_Q, hargs, ho, aQ, Option.bind, Cmd.endPt, svgCanon, Cmd.seg, newStart]
+    have hw : wasClose s = false := by
+      cases hws : wasClose s with
+      | false => rfl
+      | true => obtain ⟨_, _, h⟩ := hz hws; cases h
+    have hw' : ¬(s.cmd = some 'z' ∨ s.cmd = some 'Z') := by simpa [wasClose] using hw
+    simp [svgCmd, svgRun, svgTok, exec_Q, hargs, ho, hw', aQ, Option.bind, Cmd.endPt, svgCanon, Cmd.seg, newStart, wasClose]
   | cube a b c d x y =>
     have ho : s.out ≠ [] := by
       rcases hfirst with h | ⟨_, _, h⟩
       · exact h
       · cases h
-    simp [svgCmd, svgRun, svgTok, exec_C, hargs, ho, aC, Option.bind, Cmd.endPt, svgCanon, Cmd.seg, newStart]
+    have hw : wasClose s = false := by
+      cases hws : wasClose s with
+      | false => rfl
+      | true => obtain ⟨_, _, h⟩ := hz hws; cases h
+    have hw' : ¬(s.cmd = some 'z' ∨ s.cmd = some 'Z') := by simpa [wasClose] using hw
+    simp [svgCmd, svgRun, svgTok, exec_C, hargs, ho, hw', aC, Option.bind, Cmd.endPt, svgCanon, Cmd.seg, newStart, wasClose]
   | arc rx ry rot l sw x y =>
     have ho : s.out ≠ [] := by
       rcases hfirst with h | ⟨_, _, h⟩
       · exact h
       · cases h
+    have hw : wasClose s = false := by
+      cases hws : wasClose s with
+      | false => rfl
+      | true => obtain ⟨_, _, h⟩ := hz hws; cases h
+    have hw' : ¬(s.cmd = some 'z' ∨ s.cmd = some 'Z') := by simpa [wasClose] using hw
     by_cases hg : ge90 rot = true
-    · simp [svgCmd, hg, svgRun, svgTok, exec_A, hargs, ho, aA, Option.bind, Cmd.endPt, svgCanon, Cmd.seg, newStart]
-    · simp [svgCmd, hg, svgRun, svgTok, exec_A, hargs, ho, aA, Option.bind, Cmd.endPt, svgCanon, Cmd.seg, newStart]
+    · simp [svgCmd, hg, svgRun, svgTok, exec_A, hargs, ho, hw', aA, Option.bind, Cmd.endPt, svgCanon, Cmd.seg, newStart, wasClose]
+    · simp [svgCmd, hg, svgRun, svgTok, exec_A, hargs, ho, hw', aA, Option.bind, Cmd.endPt, svgCanon, Cmd.seg, newStart, wasClose]
   | close x y =>
     have hst := hclose x y rfl
     simp [svgCmd, svgRun, svgTok, exec_z, hargs, az, Option.bind, Cmd.endPt, svgCanon, Cmd.seg, newStart, ← hst]
 
 theorem svg_run_all [DecidableEq α] (heq : ∀ a b, eq a b = true → a = b) (cs : List (Cmd α)) :
     ∀ s : SvgSt α, s.args = [] → (s.out ≠ [] ∨ ∃ x y cs', cs = .move x y :: cs') →
-      closesOK s.start cs = true →
+      closesOK s.start cs = true → moveAfterClose cs = true →
+      (wasClose s = true → cs = [] ∨ ∃ x y cs', cs = .move x y :: cs') →
       ∃ s', svgRun add refl s (toSVG eq ge90 sub90 s.cur cs) = some s' ∧ s'.args = [] ∧
         s'.out = (svgExpected eq ge90 sub90 s.cur cs).reverse ++ s.out := by
   induction cs with
-  | nil => intro s h _ _; exact ⟨s, by simp [toSVG, svgRun], h, by simp [svgExpected]⟩
+  | nil => intro s h _ _ _ _; exact ⟨s, by simp [toSVG, svgRun], h, by simp [svgExpected]⟩
   | cons c cs ih =>
-    intro s hargs hfirst hwf
+    intro s hargs hfirst hwf hmac hzs
     have hfirst' : s.out ≠ [] ∨ ∃ x y, c = .move x y := by
       rcases hfirst with h | ⟨x, y, cs', h⟩
       · exact Or.inl h
@@ -125,11 +154,33 @@ theorem svg_run_all [DecidableEq α] (heq : ∀ a b, eq a b = true → a = b) (c
       subst hc
       simp [closesOK] at hwf
       exact hwf.1
-    obtain ⟨s1, hrun, ha1, hc1, hs1, ho1, hne1⟩ := svg_cmd add refl eq ge90 sub90 heq s c hargs hfirst' hclose
+    have hz : wasClose s = true → ∃ x y, c = .move x y := by
+      intro hw
+      rcases hzs hw with h | ⟨x, y, cs', h⟩
+      · cases h
+      · exact ⟨x, y, by simp at h; exact h.1⟩
+    obtain ⟨s1, hrun, ha1, hc1, hs1, ho1, hne1, hz1⟩ := svg_cmd add refl eq ge90 sub90 heq s c hargs hfirst' hclose hz
     have hwf1 : closesOK s1.start cs = true := by
       rw [hs1]
       cases c <;> simp_all [closesOK, newStart]
-    obtain ⟨s2, hrun2, ha2, ho2⟩ := ih s1 ha1 (Or.inl hne1) hwf1
+    have hmac1 : moveAfterClose cs = true := by
+      cases c with
+      | close x y =>
+        cases cs with
+        | nil => rfl
+        | cons d ds => cases d <;> simp_all [moveAfterClose]
+      | _ => simpa [moveAfterClose] using hmac
+    have hzs1 : wasClose s1 = true → cs = [] ∨ ∃ x y cs', cs = .move x y :: cs' := by
+      intro hw
+      obtain ⟨x, y, hc⟩ := hz1 hw
+      subst hc
+      cases cs with
+      | nil => exact Or.inl rfl
+      | cons d ds =>
+        cases d with
+        | move a b => exact Or.inr ⟨a, b, ds, rfl⟩
+        | _ => simp [moveAfterClose] at hmac
+    obtain ⟨s2, hrun2, ha2, ho2⟩ := ih s1 ha1 (Or.inl hne1) hwf1 hmac1 hzs1
     refine ⟨s2, ?_, ha2, ?_⟩
     · simp only [toSVG]
       rw [svgRun_append, hrun]
